@@ -238,7 +238,10 @@ impl Mempool {
         self.add_transaction_if_validates(staking_tx, blockchain)
             .await;
 
-        let mut block = Block::create(
+        // Block::create takes the transactions out of the pool before it can fail. keep
+        // them so that a failed attempt leaves the pool as it was.
+        let pooled_transactions = self.transactions.clone();
+        let block = match Block::create(
             &mut self.transactions,
             previous_block_hash,
             blockchain,
@@ -250,8 +253,20 @@ impl Mempool {
             storage,
         )
         .await
-        .ok()?;
-        block.generate().ok()?;
+        {
+            Ok(mut block) => match block.generate() {
+                Ok(()) => Some(block),
+                Err(_) => None,
+            },
+            Err(_) => None,
+        };
+        if block.is_none() {
+            warn!("block could not be created. restoring the pool");
+            self.transactions = pooled_transactions;
+            self.recalculate_indices();
+            return None;
+        }
+        let block = block.unwrap();
         debug!(
             "block generated with work : {:?} and burnfee : {:?} gts : {:?}",
             block.total_work,
@@ -402,11 +417,21 @@ impl Mempool {
             }
         }
 
-        self.routing_work_in_mempool = 0;
+        self.recalculate_indices();
+    }
 
-        // add routing work from remaining tx
+    /// rebuilds the routing work total and the index of reserved inputs from the
+    /// transactions that are in the pool. needed whenever transactions leave or
+    /// enter the pool by another route than add_transaction().
+    pub fn recalculate_indices(&mut self) {
+        self.routing_work_in_mempool = 0;
+        self.utxo_map.clear();
+
         for (_, transaction) in &self.transactions {
             self.routing_work_in_mempool += transaction.total_work_for_me;
+            for input in transaction.from.iter() {
+                self.utxo_map.insert(input.utxoset_key, 1);
+            }
         }
     }
 
